@@ -463,7 +463,10 @@ func RunBubble(env *Env, body func()) (leak string) {
 	go func() { s.wg.Wait(); close(done) }()
 	select {
 	case <-done:
-	case <-time.After(10 * time.Second):
+	case <-time.After(60 * time.Second):
+		// (real time, outside any run: only reachable when the machine is stalled or a
+		// task sits in an operation the scheduler does not own; the run is discarded
+		// and the worker process retires, see RunOne)
 		leak = "tasks did not finish"
 	}
 	for _, t := range s.tasks {
